@@ -372,7 +372,7 @@ func init() {
 					return
 				}
 				o2 := c.cmpProf(d, p, nil, o1.Fields[fHref], allButVerrs, fam+"-second-pass", i)
-				if diff := obsEq(o1, o2, allButVerrs); diff != "" {
+				if diff := obsEq(o1, o2, urlFieldsOnly); diff != "" {
 					c.Report(Finding{Class: "violation", What: fmt.Sprintf("canonical output is not a fixed point: %q -> %q -> %s (%s)", input, o1.Fields[fHref], o2.String(), diff),
 						Case: Case{Kind: "cparse", Cfg: p.Desc, Input: input, Family: fam, Index: i, Extra: map[string]string{"query0": rawQuery(p, input)}}, Host: o1.Fields[fHostname]})
 				}
@@ -505,7 +505,7 @@ func init() {
 				o := c.cmpParse(d, defaultCfg, base, input, allFields, true, "default", i)
 				// a profile without options behaves exactly like the default parser
 				on := c.cmpProf(d, noopt, base, input, allButVerrs, "no-options", i)
-				if diff := obsEq(o, on, allButVerrs); diff != "" {
+				if diff := obsEq(o, on, urlFieldsOnly); diff != "" {
 					c.Report(Finding{Class: "violation", What: "profile without options differs from the default parser: " + diff, Case: cs})
 				}
 				// conservative extensions
@@ -514,7 +514,7 @@ func init() {
 				trig := e.trigger(base, input, o)
 				if trig {
 					c.Label("trigger:" + e.cfg.Desc)
-				} else if diff := obsEq(o, oe, allButVerrs); diff != "" {
+				} else if diff := obsEq(o, oe, urlFieldsOnly); diff != "" {
 					cs2 := cs
 					cs2.Cfg = e.cfg.Desc
 					c.Report(Finding{Class: "violation", What: fmt.Sprintf("option %s changes the result of an input without its trigger: %s", e.cfg.Desc, diff), Case: cs2})
@@ -539,7 +539,7 @@ func init() {
 						f(u)
 						return implObs(u, nil)
 					})
-					if diff := obsEq(want, op, allButVerrs); diff != "" {
+					if diff := obsEq(want, op, urlFieldsOnly); diff != "" {
 						c.Report(Finding{Class: "violation", What: fmt.Sprintf("%s differs from parse + setter: %s", what, diff), Case: cs})
 					}
 				}
@@ -557,7 +557,7 @@ func init() {
 					if o.Kind == "E" && strings.HasPrefix(o.Err, "21:") {
 						want = implParse(dp, nil, "http://"+input)
 					}
-					if diff := obsEq(want, od, allButVerrs); diff != "" {
+					if diff := obsEq(want, od, urlFieldsOnly); diff != "" {
 						c.Report(Finding{Class: "violation", What: "default-scheme: " + diff, Case: cs})
 					}
 				}
@@ -632,7 +632,7 @@ func init() {
 						allowed[f] = true
 					}
 				}
-				for _, f := range allButVerrs {
+				for _, f := range urlFieldsOnly {
 					if o.Fields[f] != os.Fields[f] && !allowed[f] {
 						c.Report(Finding{Class: "violation", What: fmt.Sprintf("option %s changed %s (%q -> %q) of a %s URL", so.cfg.Desc, fieldNames[f], o.Fields[f], os.Fields[f], map[bool]string{true: "special", false: "non-special"}[o.Fields[fSpecial] == "1"]), Case: cs})
 						break
